@@ -313,6 +313,28 @@ class Snap:
         return (tuple((m["key"], m["impl"], (m["latest"] & 1) if latest_bit else None, m["feats"], m["fnv"] if fnv else m["cls"]) for m in self.mods), self.hash)
 
 
+def stale_compiled(tok):
+    """does the snapshot show an implemented module whose compiled top-level nodes name an augmenting / deviating module that is
+    not (any more) in its augmented_by / deviated_by array?  (F380: compiled with a module that the revert removed)"""
+    if not tok or tok[0] in "DXY" or "|" not in tok:
+        return False
+    try:
+        s = Snap(strip_x(tok))
+    except Exception:
+        return False
+    for m in s.mods:
+        if m["nodes"] in ("-", ""):
+            continue
+        ab = {x.split("@")[0] for x in m["augby"].split(",")} if m["augby"] != "-" else set()
+        db = {x.split("@")[0] for x in m["devby"].split(",")} if m["devby"] != "-" else set()
+        for n in m["nodes"].split("+"):
+            inner = n[n.index("(") + 1:-1]
+            a, d = inner.split("/")
+            if any(x and x not in ab for x in a.split(",")) or any(x and x not in db for x in d.split(",")):
+                return True
+    return False
+
+
 def model_broken(tok):
     """number of half-parsed modules the model sees in the context (F134); model-only field"""
     return int(tok.split("|x=")[1]) if "|x=" in tok else 0
@@ -860,4 +882,7 @@ def witnesses():
     # data while a newer aaa is among the sources: the rebuilt context holds aaa@2020-01-01 as an additional import-only module
     h = History(); h.add(W_A19()); t = h.add(Mod("top", "2018-01-01", imports=[("aaa", None)])); h.parse(t); h.add(W_A20())
     h.impl("aaa", "2019-01-01"); w["order"] = ("order", h, 1)
+    # F380 (Props/C09.lean stale_compiled_after_failed_compile): the failed ly_ctx_compile leaves aaa compiled with the augment of ccc
+    h = History(EXPLICIT); a = h.add(W_A()); h.parse(a); h.compile(); b = h.add(apply_edit(Mod("bbb"), "default")); h.parse(b)
+    c = h.add(W_C()); h.parse(c); h.compile(); w["F380"] = ("F380", h, 4)
     return w
